@@ -197,6 +197,42 @@ def check(run):
         if not (Opt(r, u, i, fs) == Opt(r, u, i, tuple(reversed(fs))) and hash(Opt(r, u, i, fs)) == hash(Opt(r, u, i, set(fs)))):
             run.fail('equal options built separately are unequal or hash differently', {'value': [r, u, i, [f.name for f in fs]]})
 
+    # histories: value semantics must hold for objects obtained through ANY sequence of API operations
+    # (hash before/after deriving callee options, after to_ast/uses/as_tuple/copying), not only fresh ones
+    import copy as _copy
+    nhist = 0
+    for r, u, i, fs in values:
+        for order in (('hash', 'call_options'), ('call_options', 'hash'), ('to_ast', 'hash', 'call_options', 'call_options'),
+                      ('hash', 'copy', 'call_options'), ('uses', 'as_tuple', 'hash', 'call_options', 'to_ast')):
+            o = Opt(r, u, i, fs)
+            objs_h = [o]
+            for op in order:
+                cur = objs_h[-1]
+                if op == 'hash':
+                    hash(cur)
+                elif op == 'call_options':
+                    objs_h.append(cur.call_options())
+                elif op == 'to_ast':
+                    cur.to_ast()
+                elif op == 'copy':
+                    objs_h.append(_copy.copy(cur))
+                elif op == 'uses':
+                    cur.uses(feats[0])
+                elif op == 'as_tuple':
+                    cur.as_tuple()
+            for x in objs_h:
+                nhist += 1
+                fresh = Opt(x.recursive, x.user_requested, x.internal_convert_user_code, tuple(x.optional_features))
+                if not (x == fresh and hash(x) == hash(fresh) and fresh == x and {x: 1}.get(fresh) == 1):
+                    run.fail('an options value obtained through %s is not interchangeable with an equal freshly built one (==/hash/dict lookup)' % '->'.join(order),
+                             {'start': [r, u, i, [f.name for f in fs]], 'history': list(order), 'derived': canon(x)})
+            # the callee options of an object are the same value whatever was done to it before
+            c1 = Opt(r, u, i, fs).call_options()
+            if not fields_equal(objs_h[-1] if order[-1] == 'call_options' and order.count('call_options') == 1 else c1, c1):
+                run.fail('call_options() depends on the history of the object', {'start': [r, u, i, [f.name for f in fs]], 'history': list(order)})
+    run.evaluations += nhist
+    run.cov['history_checks'] = nhist
+
     # PYTHONHASHSEED sweep (frozenset iteration order feeds to_ast)
     seeds = [run.seed * 7 + k + 1 for k in range(2 if run.tier == 'quick' else 10)]
     tot_orders = 0
